@@ -568,4 +568,3 @@ func (q Q) HasBackquoted() bool {
 	}
 	return false
 }
-
